@@ -74,11 +74,38 @@ fn mem(host: &mut Host, name: &str, op: &Value) -> Result<Option<Value>, String>
     let slot = u(op, 1)?;
     match name {
         "new" => {
+            host.memrts.remove(&slot);
             host.mems.insert(slot, MemoryImage::new());
             Ok(None)
         }
+        "new_rt" => {
+            // ["mem.new_rt", slot, "pce500"|"jp", seed, image_len]: the memory of a runtime configured the way a front
+            // end does it, DeviceModel::configure_runtime(rt, rom).  The byte of the image that the loaders place at
+            // address a is ((a*2654435761 + seed*40503) >> 7) & 0xFF, so the reference model needs no copy of it.
+            let model = match crate::s(op, 2)? {
+                "jp" => sc62015_core::DeviceModel::PcE500Jp,
+                _ => sc62015_core::DeviceModel::PcE500,
+            };
+            let seed = u(op, 3)?;
+            let len = u(op, 4)? as usize;
+            let shift = if len >= 0x100000 { 0u64 } else { 0xC0000u64.wrapping_sub(len.saturating_sub(0x40000) as u64) };
+            let rom: Vec<u8> = (0..len as u64)
+                .map(|i| {
+                    let a = i.wrapping_add(shift);
+                    (((a.wrapping_mul(2654435761u64).wrapping_add(seed * 40503u64)) >> 7) & 0xFF) as u8
+                })
+                .collect();
+            let mut rt = Box::new(sc62015_core::CoreRuntime::new());
+            model.configure_runtime(&mut rt, &rom).map_err(|e| format!("{e}"))?;
+            host.mems.remove(&slot);
+            host.memrts.insert(slot, rt);
+            Ok(None)
+        }
         "script" => {
-            let m = host.mems.get_mut(&slot).ok_or_else(|| format!("no mem {slot}"))?;
+            let m = match host.memrts.get_mut(&slot) {
+                Some(rt) => &mut rt.memory,
+                None => host.mems.get_mut(&slot).ok_or_else(|| format!("no mem {slot}"))?,
+            };
             let script = op.get(2).and_then(|x| x.as_array()).ok_or_else(|| "steps".to_string())?;
             let mut out: Vec<Value> = Vec::with_capacity(script.len());
             for step in script {
